@@ -358,11 +358,20 @@ def session_judge(case):
     return True, '', actual
 
 
+def burst_case(base, n=2500):
+    """A burst of very small messages already waiting when the session thread reads: however many complete messages one
+    transport read brings (at most the transport's read size), all are delivered, in order."""
+    f = F()
+    msgs = ['<m i="%d"/>' % i for i in range(n)]
+    stream = f.encode10([m.encode() for m in msgs]) if base == 10 else f.encode11([[m.encode()] for m in msgs])
+    return {'level': 'session', 'base': base, 'segs': [stream.hex()], 'settle': True, 'expected': msgs}, 'burst'
+
+
 def session_level(ctx):
     rng = ctx.rng
     n = 100 if ctx.tier == 'quick' else 600
-    for i in range(n):
-        case, sk = session_case(rng, 10 if i % 2 == 0 else 11)
+    for i in range(n + 2):
+        case, sk = session_case(rng, 10 if i % 2 == 0 else 11) if i < n else burst_case(10 if i % 2 == 0 else 11)
         ok, what, actual = session_judge(case)
         tries = 1
         while not ok and tries < 3:              # wall-clock rig: report only what fails every time
